@@ -1,9 +1,11 @@
-(* C15 - challenge-response credentials: suds' https.HttpAuthenticated keeps one urllib password
-   manager for its whole life and adds the configured credentials under the request URL before
-   every send; urllib answers a Basic challenge with the FIRST entry that is the URL or a path
-   prefix of it.  What the server recovers is what is configured at the time of the request as
-   long as no entry for a shorter path stands in front (pm_clear); otherwise it is that older
-   entry (challenge_credentials_refuted: the finding C15:stale-credentials-for-deeper-path). *)
+(* C15 - challenge-response credentials.  Since 2ac69bb https.HttpAuthenticated starts every
+   request from a fresh urllib password manager holding only the credentials configured now, so
+   what the server recovers after a Basic challenge is what is configured at the time of the
+   request, whatever happened before - and nothing when a credential is None.
+   The manager suds used before (one for the life of the transport, an entry per URL, urllib
+   answering with the first path prefix) is kept as pm_after_accumulating with its lemmas: the
+   guarded statement and the /svc -> /svc/op witness are the regression witnesses of the fixed
+   finding C15:stale-credentials-for-deeper-path. *)
 From SV Require Import Lib.Base C15.Base64 C15.Model C15.PipeProofs.
 Local Open Scope N_scope.
 
@@ -58,22 +60,54 @@ Lemma same_url_history_l path changes u p :
   pm_find path (pm_add path u p (pm_history path changes)) = Some (u, p).
 Proof. apply pm_find_add_l, pm_single_clear, pm_history_single. Qed.
 
-(* at the level of a send: the retried request carries the configured pair *)
-Lemma challenge_credentials_partial_l P u pw j prev pm q p cb :
+(* at the level of a send: the retried request carries the pair configured now, for ANY state
+   an earlier send may have left *)
+Lemma challenge_credentials_l P u pw j prev pm q p cb :
   p_challenge p = Some cb ->
   has_key l_authorization (u2_headers (start_headers P prev q)) = false ->
-  pm_clear (q_path q) pm = true ->
   let m := fst (model_step P TChallenge (Some u, Some pw) j prev pm q p) in
   m_conns m = 2 /\ dict_get l_authorization (m_hdrs m) = Some (authorization std_alphabet u pw).
 Proof.
-  intros C A H m. subst m. unfold model_step. rewrite C. cbn [add_credentials]. rewrite A.
-  cbn [pm_after]. rewrite (pm_find_add_l _ u pw pm H). cbn [fst m_conns m_hdrs].
+  intros C A m. subst m. unfold model_step. rewrite C. cbn [add_credentials]. rewrite A.
+  cbn [pm_after pm_find]. rewrite is_suburi_refl. cbn [fst m_conns m_hdrs].
   split; [reflexivity|]. rewrite get_set, str_eqb_refl. reflexivity.
 Qed.
 
+(* credentials reset to None (one or both): the challenge is not answered - one connection,
+   no Authorization added, the 401 surfaces *)
+Lemma no_credentials_no_answer_l P k c j prev pm q p cb :
+  fst c = None \/ snd c = None ->
+  p_challenge p = Some cb ->
+  has_key l_authorization (u2_headers (start_headers P prev q)) = false ->
+  let m := fst (model_step P k c j prev pm q p) in
+  m_conns m = 1 /\ m_result m = RTransportError 401 cb /\
+  m_hdrs m = u2_headers (start_headers P prev q).
+Proof.
+  intros N C A m. subst m. unfold model_step. rewrite C.
+  assert (E : add_credentials P k c (start_headers P prev q) = start_headers P prev q)
+    by (apply no_credentials_no_header_l; tauto).
+  rewrite E, A.
+  assert (F : pm_after k c pm q = []).
+  { destruct k, c as [[u|] [pw|]]; try reflexivity. cbn in N. destruct N; discriminate. }
+  destruct k; try (rewrite F; cbn [pm_find]); cbn [fst m_conns m_result m_hdrs]; repeat split; reflexivity.
+Qed.
+
+(* no send looks at what earlier sends left in the manager *)
+Lemma history_independent_l P k c j prev pm q p :
+  model_step P k c j prev pm q p = model_step P k c j prev [] q p.
+Proof. unfold model_step. destruct k, c as [[u|] [pw|]]; reflexivity. Qed.
+
+(* ---------- the manager before 2ac69bb (regression witnesses) ---------- *)
+(* with the accumulating manager the configured pair was found only when no entry for another,
+   shorter path stood in front *)
+Lemma accumulating_manager_partial_l u pw pm q :
+  pm_clear (q_path q) pm = true ->
+  pm_find (q_path q) (pm_after_accumulating TChallenge (Some u, Some pw) pm q) = Some (u, pw).
+Proof. intro H. cbn [pm_after_accumulating]. apply pm_find_add_l, H. Qed.
+
 (* the unguarded statement is false: credentials first used for /svc, then changed, then a
    request to /svc/op - the manager finds the /svc entry first *)
-Lemma challenge_credentials_refuted_l :
+Lemma accumulating_manager_refuted_l :
   exists path pm u p, pm_find path (pm_add path u p pm) <> Some (u, p).
 Proof.
   exists [47; 115; 118; 99; 47; 111; 112], [([47; 115; 118; 99], ([97], [49]))], [98], [50].
